@@ -8,7 +8,10 @@ import (
 
 	"github.com/cockroachdb/pebble"
 	"github.com/ethereum/go-ethereum/core/types"
+	"github.com/protolambda/zrnt/eth2/beacon/altair"
 	"github.com/protolambda/zrnt/eth2/beacon/capella"
+	"github.com/protolambda/zrnt/eth2/beacon/common"
+	beacontypes "github.com/zen-eth/shisui/types/beacon"
 )
 
 func init() {
@@ -26,8 +29,6 @@ func init() {
 //verif:stub havoc (*github.com/zen-eth/shisui/types/beacon.ForkedLightClientUpdate).Deserialize (github.com/zen-eth/shisui/types/beacon.LightClientUpdateRange).Serialize (*github.com/zen-eth/shisui/types/beacon.LightClientUpdateRange).Deserialize
 //verif:stub havoc (*github.com/zen-eth/shisui/types/beacon.ForkedLightClientFinalityUpdate).Deserialize (*github.com/zen-eth/shisui/types/beacon.ForkedLightClientOptimisticUpdate).Deserialize (*github.com/zen-eth/shisui/types/beacon.ForkedLightClientBootstrap).Deserialize (*github.com/zen-eth/shisui/types/beacon.ForkedHistoricalSummariesWithProof).Deserialize
 //verif:stub havoc (*github.com/zen-eth/shisui/types/beacon.ForkedLightClientFinalityUpdate).Serialize (*github.com/zen-eth/shisui/types/beacon.ForkedLightClientOptimisticUpdate).Serialize
-//verif:stub havoc,nilable (*github.com/zen-eth/shisui/beacon.beaconStorageCache).GetFinalityUpdate (*github.com/zen-eth/shisui/beacon.beaconStorageCache).GetOptimisticUpdate
-//verif:stub noop (*github.com/zen-eth/shisui/beacon.beaconStorageCache).SetFinalityUpdate (*github.com/zen-eth/shisui/beacon.beaconStorageCache).SetOptimisticUpdate
 //verif:stub havoc (*github.com/zen-eth/shisui/beacon.BeaconValidator).stateSummariesValidation
 //verif:stub havoc time.Now (time.Time).Unix (*github.com/protolambda/zrnt/eth2/beacon/common.Spec).TimeToSlot
 //verif:exec github.com/protolambda/ztyp/codec github.com/protolambda/ztyp/view bytes
@@ -72,7 +73,18 @@ func (o *vmOracle) GetFinalizedStateRoot() ([]byte, error) {
 //verif:param L=10/40
 func vhC01BeaconStorageKey() {
 	key := vsBytes("key", vsParam("L"))
-	bs := &Storage{db: &pebble.DB{}, cache: &beaconStorageCache{}}
+	// the real update cache, empty or holding updates at arbitrary slots
+	cache := &beaconStorageCache{}
+	if vsChoose("cached-finality-update", 2) == 1 {
+		u := &altair.LightClientFinalityUpdate{}
+		u.FinalizedHeader.Slot = common.Slot(vsU64("cached-finalized-slot"))
+		cache.finalityUpdate = &beacontypes.ForkedLightClientFinalityUpdate{ForkDigest: beacontypes.Bellatrix, LightClientFinalityUpdate: u}
+	}
+	if vsChoose("cached-optimistic-update", 2) == 1 {
+		u := &altair.LightClientOptimisticUpdate{SignatureSlot: common.Slot(vsU64("cached-signature-slot"))}
+		cache.optimisticUpdate = &beacontypes.ForkedLightClientOptimisticUpdate{ForkDigest: beacontypes.Bellatrix, LightClientOptimisticUpdate: u}
+	}
+	bs := &Storage{db: &pebble.DB{}, cache: cache}
 	id := vsBytesN("id", 32)
 	if vsChoose("op", 2) == 0 {
 		bs.Get(key, id)
